@@ -190,7 +190,7 @@ LeavesFull == AllPrims \cup ZstLeaves \cup StrLeaves \cup RangeLeaves \cup ZcDer
               \cup DeepDerived \cup OtherPhantoms
 LeavesQuick == QuickPrims \cup ZstLeaves \cup StrLeaves \cup RangeLeaves \cup ZcDerived \cup DeepDerived
 \* the reduced leaf set used at depth 2 and in the machine configurations
-LeavesSmall == SmallPrims \cup {UnitT, StringT, ZPad, ZA16, ZE, DS, DE, Range("RangeTo", U32)}
+LeavesSmall == SmallPrims \cup {UnitT, StringT, ZPad, ZA16, ZE, DS, DE, Range("RangeTo", U32), Range("RangeInclusive", U64)}
 
 \* tuples need a ZeroCopy element; arrays/sequences an element that is ZeroCopy or DeepCopy
 TupleOk(t) == IsZeroCopyTrait(t)
@@ -229,8 +229,8 @@ TypesOf(name) ==
   CASE name = "small1" -> Close(LeavesSmall, CfSmall) \cup Nested
     [] name = "quick1" -> Close(LeavesQuick, CfSmall) \cup Nested
     [] name = "full1"  -> Close(LeavesFull, CfSmall) \cup Nested
-    [] name = "small2" -> Close(Close(LeavesSmall, CfSmall), CfSmall)
-    [] name = "all"    -> Close(LeavesFull, CfSmall) \cup Close(Close(LeavesSmall, CfSmall), CfSmall)
+    [] name = "small2" -> Close(Close(LeavesSmall, CfSmall), CfSmall) \cup Nested
+    [] name = "all"    -> Close(LeavesFull, CfSmall) \cup Close(Close(LeavesSmall, CfSmall), CfSmall) \cup Nested
     [] name = "tiny"   -> {Vec(ZPad), G(Vec(U32)), Option(StringT), DE, ZEP, Array(3, ZA16)}
 SerOnlyOf(name) ==
   CASE name \in {"small1", "small2"} -> SerOnly(LeavesSmall)
